@@ -196,6 +196,20 @@ def api_extras(ctx):
     """strings, Address.to_cell / ExternalAddress.to_cell, store_string, load_string, load_snake_string"""
     from pytoniq_core import begin_cell, Address, ExternalAddress
     rng = ctx.rng
+    # an address constructor the library does not support (addr_var$11 ...): the peek refuses exactly like the read (both raise)
+    for tail in ('', '0', '1' * 20, '0' * 300):
+        c = begin_cell().store_bits('11' + tail).end_cell()
+        ctx.case(('addr-var', tail))
+        outs = []
+        for name in ('load_address', 'preload_address'):
+            sl = c.begin_parse()
+            try:
+                outs.append((name, 'value', repr(getattr(sl, name)())))
+            except Exception:
+                outs.append((name, 'raises', None))
+        if outs[0][1] != outs[1][1]:
+            ctx.fail('preload-vs-load:address-tag-11', 'preload_address and load_address disagree on an unsupported address constructor (one raises, the other returns)',
+                     {'bits': '11' + tail}, outs[1], outs[0])
     for s in ['', 'a', 'héllo wörld', '日本語' * 10, 'x' * 127, 'é' * 63]:
         ctx.case(('string', s))
         try:
